@@ -780,6 +780,11 @@ func (cfg *Config) wordFields(wps []syntax.WordPart) ([][]fieldPart, error) {
 				part.quote = quoteDouble
 				curField = append(curField, part)
 			}
+			if len(wfield) == 0 {
+				// An empty "" still makes a field of its own, e.g. after an
+				// unquoted expansion which ended in IFS whitespace.
+				curField = append(curField, fieldPart{quote: quoteDouble})
+			}
 		case *syntax.ParamExp:
 			if elems, ok := cfg.unquotedElemFields(wp); ok {
 				// Unquoted "*" or "@" expansions produce one field per
